@@ -69,7 +69,15 @@ func (c *Ctx) PanicScan(ob *core.Obligation, reachKey string, roots []*ssa.Funct
 					ob.Pass(key, pos, why)
 					continue
 				}
-				if e, ok := exc[key]; ok {
+				e, ok := exc[key]
+				if !ok {
+					// exceptions may also be keyed by the shape of the site (independent of the
+					// name of the enclosing function)
+					if sh := c.siteShape(fn, in, kind, pc); sh != "" {
+						e, ok = exc["shape:"+relOfFn(fn)+":"+kind+":"+sh]
+					}
+				}
+				if ok {
 					used[key] = true
 					if e.Side != nil {
 						if good, why := e.Side(c, fn, in); !good {
@@ -85,6 +93,103 @@ func (c *Ctx) PanicScan(ob *core.Obligation, reachKey string, roots []*ssa.Funct
 		}
 	}
 	c.R.CallSites += nsites
+}
+
+// siteShape describes a site by what guards or feeds it rather than by where it is:
+//
+//	explicit / setstring10-failed            a panic reached only when a base-ten
+//	                                         big.Int.SetString has failed
+//	explicit / setstring10-failed-in-callee  a panic reached only when a module function has
+//	                                         returned an error, which that function only does
+//	                                         when a base-ten SetString has failed
+//	index / split-const                      a constant index into the result of strings.Split
+//	                                         with a constant separator
+func (c *Ctx) siteShape(fn *ssa.Function, in ssa.Instruction, kind string, pc func() *core.PathConds) string {
+	switch kind {
+	case "explicit":
+		if pc().Requires(in.Block(), setString10Failed) {
+			return "setstring10-failed"
+		}
+		inCallee := pc().Requires(in.Block(), func(l core.Lit) bool {
+			bo, ok := l.Cond.(*ssa.BinOp)
+			if !ok || (bo.Op != token.NEQ && bo.Op != token.EQL) {
+				return false
+			}
+			var other ssa.Value
+			if core.IsNilConst(bo.Y) {
+				other = bo.X
+			} else if core.IsNilConst(bo.X) {
+				other = bo.Y
+			}
+			ex, ok := other.(*ssa.Extract)
+			if !ok || (bo.Op == token.NEQ) != l.Val {
+				return false
+			}
+			call, ok := ex.Tuple.(*ssa.Call)
+			if !ok {
+				return false
+			}
+			sc := call.Call.StaticCallee()
+			if sc == nil || !c.P.InModule(sc) || len(sc.Blocks) == 0 || errIndex(sc.Signature) != ex.Index {
+				return false
+			}
+			// every error return of the callee is under a failed base-ten SetString
+			pcc := core.NewPathConds(sc)
+			n := 0
+			for _, ret := range core.Returns(sc) {
+				if ex.Index >= len(ret.Results) || core.IsNilConst(ret.Results[ex.Index]) {
+					continue
+				}
+				n++
+				if !pcc.Requires(ret.Block(), setString10Failed) {
+					return false
+				}
+			}
+			return n > 0
+		})
+		if inCallee {
+			return "setstring10-failed-in-callee"
+		}
+	case "index":
+		var x, idx ssa.Value
+		switch y := in.(type) {
+		case *ssa.IndexAddr:
+			x, idx = y.X, y.Index
+		case *ssa.Index:
+			x, idx = y.X, y.Index
+		}
+		if x == nil {
+			return ""
+		}
+		if _, isConst := core.ConstInt(idx); !isConst {
+			return ""
+		}
+		if call, ok := resolveLocal(x).(*ssa.Call); ok && core.IsFunc(core.CalleeObj(&call.Call), "strings", "Split") {
+			if _, ok := core.ConstString(call.Call.Args[1]); ok {
+				return "split-const"
+			}
+		}
+	}
+	return ""
+}
+
+// setString10Failed: the literal says that the ok result of (*big.Int).SetString(_, 10) is false.
+func setString10Failed(l core.Lit) bool {
+	ex, ok := l.Cond.(*ssa.Extract)
+	if !ok || ex.Index != 1 || l.Val {
+		return false
+	}
+	call, ok := ex.Tuple.(*ssa.Call)
+	if !ok {
+		return false
+	}
+	tn, m := core.BigMethod(&call.Call)
+	if tn != "Int" || m != "SetString" {
+		return false
+	}
+	args := core.CallArgs(&call.Call)
+	k, ok := core.ConstInt(args[len(args)-1])
+	return ok && k == 10
 }
 
 // siteKind classifies an instruction as a may-panic site.
@@ -315,7 +420,7 @@ func (c *Ctx) dischargeSite(fn *ssa.Function, in ssa.Instruction, kind string, p
 				why = append(why, "low: "+w)
 			} else if s.High != nil && okAll {
 				// low <= high
-				if c.leq(in.Block(), s.Low, s.High, pc()) {
+				if c.leq(in.Block(), s.Low, s.High, pc(), s.X) {
 					why = append(why, "low<=high")
 				} else {
 					okAll = false
@@ -346,6 +451,17 @@ func (c *Ctx) dischargeSite(fn *ssa.Function, in ssa.Instruction, kind string, p
 // dischargeUnreachable: a call of a never-returning helper is fine in the default arm of an
 // exhaustive switch over a closed sum, or of a value switch covering every constant of its type.
 func (c *Ctx) dischargeUnreachable(fn *ssa.Function, in ssa.Instruction) (bool, string) {
+	if ok, why := c.dischargeUnreachableSyntax(fn, in); ok {
+		return ok, why
+	}
+	// the same thing written as an if / else-if chain of comma-ok assertions
+	if b := in.Block(); len(b.Preds) == 1 && c.closedSumNoMatchEdge(b.Preds[0], b) {
+		return true, "reached only when the assertion to every implementer of the closed sum has failed"
+	}
+	return false, ""
+}
+
+func (c *Ctx) dischargeUnreachableSyntax(fn *ssa.Function, in ssa.Instruction) (bool, string) {
 	// locate the call in the syntax
 	root := fn
 	for root.Parent() != nil {
@@ -478,6 +594,9 @@ func (c *Ctx) boundsOK(b *ssa.BasicBlock, x, idx ssa.Value, slack int64, pc *cor
 		return true, "unreachable block"
 	}
 	minLen, exactLens := knownLen(x)
+	if tl := c.textMinLen(x); tl > minLen {
+		minLen = tl
+	}
 	var same []ssa.Value
 	var idxOver ssa.Value
 	if _, isSlice := x.Type().Underlying().(*types.Slice); isSlice {
@@ -608,11 +727,21 @@ func (c *Ctx) counterFieldLoad(idx ssa.Value) bool {
 	return good
 }
 
-func (c *Ctx) leq(b *ssa.BasicBlock, lo, hi ssa.Value, pc *core.PathConds) bool {
+func (c *Ctx) leq(b *ssa.BasicBlock, lo, hi ssa.Value, pc *core.PathConds, of ...ssa.Value) bool {
 	lt, lo2 := core.Linear(lo)
 	ht, ho := core.Linear(hi)
 	for _, term := range pc.At(b) {
 		d := core.NewDiffSys()
+		for _, x := range of {
+			// what is known about the length of the sliced value
+			minLen, _ := knownLen(x)
+			if tl := c.textMinLen(x); tl > minLen {
+				minLen = tl
+			}
+			if minLen > 0 {
+				d.Add("0", "len("+core.Canon(x)+")", -minLen)
+			}
+		}
 		for _, l := range term {
 			if bo, ok := l.Cond.(*ssa.BinOp); ok {
 				for _, side := range []ssa.Value{bo.X, bo.Y} {
@@ -690,6 +819,111 @@ func rangePhi(ph *ssa.Phi, inc *ssa.BinOp) bool {
 }
 
 var groupRe = regexp.MustCompile(`\((\?P<[^>]+>|[^?])`)
+
+// textMinLen: x is the text of a token or of a parse-tree context (GetText()): a lower bound
+// of its length, from the static type of the receiver and Numscript.g4:
+//
+//	a token              at least the shortest text of any lexer rule (conjured tokens and
+//	                     EOF have longer texts)
+//	*XContext            the alternative labelled X starts with a token that prediction has
+//	                     seen: at least that token's shortest text
+//	an interface-typed
+//	parameter            the least of the above over every call site of the function
+func (c *Ctx) textMinLen(x ssa.Value) int64 {
+	x = resolveLocal(x)
+	call, ok := x.(*ssa.Call)
+	if !ok || !call.Call.IsInvoke() || call.Call.Method.Name() != "GetText" {
+		if ok && !call.Call.IsInvoke() {
+			if o := core.CalleeObj(&call.Call); o == nil || o.Name() != "GetText" {
+				return 0
+			}
+		} else {
+			return 0
+		}
+	}
+	g, err := c.Grammar()
+	if err != nil {
+		return 0
+	}
+	var recv ssa.Value
+	if call.Call.IsInvoke() {
+		recv = call.Call.Value
+	} else {
+		recv = call.Call.Args[0]
+	}
+	return int64(c.recvTextMinLen(g, recv, 0))
+}
+
+func (c *Ctx) recvTextMinLen(g *model.Grammar, recv ssa.Value, depth int) int {
+	if depth > 3 {
+		return 0
+	}
+	recv = resolveLocal(recv)
+	// a method promoted from an embedded base context: the receiver is &x.Embedded...
+	for {
+		fa, ok := recv.(*ssa.FieldAddr)
+		if !ok {
+			break
+		}
+		f := core.FieldOf(fa)
+		if f == nil || !f.Embedded() {
+			break
+		}
+		recv = resolveLocal(fa.X)
+	}
+	switch y := recv.(type) {
+	case *ssa.MakeInterface:
+		return c.recvTextMinLen(g, y.X, depth+1)
+	case *ssa.ChangeInterface:
+		return c.recvTextMinLen(g, y.X, depth+1)
+	}
+	t := recv.Type()
+	if p, ok := types.Unalias(t).(*types.Pointer); ok {
+		if n, ok := types.Unalias(p.Elem()).(*types.Named); ok && strings.HasSuffix(n.Obj().Name(), "Context") {
+			if k, ok := g.AltMinTextLen(strings.TrimSuffix(n.Obj().Name(), "Context")); ok {
+				return k
+			}
+		}
+		return 0
+	}
+	if n, ok := types.Unalias(t).(*types.Named); ok && n.Obj().Name() == "Token" && n.Obj().Pkg() != nil && strings.Contains(n.Obj().Pkg().Path(), "antlr") {
+		return g.AnyTokenMinLen()
+	}
+	// an interface-typed parameter: every call site
+	if prm, ok := recv.(*ssa.Parameter); ok {
+		fn := prm.Parent()
+		idx := -1
+		for i, q := range fn.Params {
+			if q == prm {
+				idx = i
+			}
+		}
+		m, n := -1, 0
+		for _, caller := range c.P.ModuleFunctions() {
+			for _, ci := range core.Calls(caller) {
+				if ci.Common().StaticCallee() != fn || idx >= len(ci.Common().Args) {
+					continue
+				}
+				n++
+				k := c.recvTextMinLen(g, ci.Common().Args[idx], depth+1)
+				if m < 0 || k < m {
+					m = k
+				}
+			}
+		}
+		if n == 0 || m < 0 {
+			return 0
+		}
+		return m
+	}
+	// the first result of a comma-ok assertion / the bound variable of a type switch
+	if ex, ok := recv.(*ssa.Extract); ok && ex.Index == 0 {
+		if ta, ok := ex.Tuple.(*ssa.TypeAssert); ok {
+			_ = ta
+		}
+	}
+	return 0
+}
 
 // knownLen: lower bound on the length of a slice from how it was produced, and for regexp
 // submatches the exact possible lengths {0, groups+1}.
